@@ -178,9 +178,8 @@ func (c *shardedMapOf[V]) ExpireAll(ctx context.Context) {
 	for i := range c.hashedBuckets {
 		b := &c.hashedBuckets[i]
 		b.Lock()
-		for h, v := range b.data {
-			v.E = startTS
-			b.data[h] = v
+		for _, v := range b.data {
+			atomic.StoreInt64(&v.E, startTS) // Entry may be in use by concurrent readers.
 			cnt++
 		}
 		b.Unlock()
@@ -249,7 +248,8 @@ func (c *shardedMapOf[V]) Walk(walkFn func(e EntryOf[V]) error) (int, error) {
 		for _, v := range c.hashedBuckets[i].data {
 			b.RUnlock()
 
-			err := walkFn(v)
+			// Handing out a consistent copy, entry may be updated by concurrent ExpireAll or reads.
+			err := walkFn(TraitEntryOf[V]{K: v.K, V: v.V, E: atomic.LoadInt64(&v.E), C: atomic.LoadInt64(&v.C)})
 			if err != nil {
 				return n, err
 			}
@@ -297,7 +297,7 @@ func (c *shardedMapLegacyWalkerOf[V]) Walk(walkFn func(e Entry) error) (int, err
 			e := TraitEntry{
 				K: v.K,
 				V: v.V,
-				E: v.E,
+				E: atomic.LoadInt64(&v.E),
 			}
 
 			err := walkFn(e)
